@@ -7,6 +7,7 @@ import (
 	"sort"
 	"strings"
 	"sync/atomic"
+	"vctl/internal/grog"
 
 	"vctl/internal/report"
 	"vctl/internal/rng"
@@ -130,6 +131,7 @@ func setFailureMarkers(e *Env, s *spec.Spec, failing bool) {
 // C05Part is the process-level part of C05 (the report is owned by the caller).
 func C05Part(run *report.Run, st *Setup, tier string) {
 	FailurePatternPart(run, st, tierN(tier, 48, 600), "C05", map[string]bool{"exec": true, "exit": true})
+	FailingRerunPart(run, st, tierN(tier, 12, 120))
 }
 
 // FailurePatternPart: random failing subsets x failure kinds x keep-going / fail-fast over three
@@ -313,5 +315,108 @@ func FailurePatternPart(run *report.Run, st *Setup, n int, stream string, judge 
 			run.Nontrivial(fmt.Sprintf("%s|%v|ff=%v", s.Shape(), fl, failFast))
 		}
 		run.Sample(map[string]any{"case": i, "shape": s.Shape(), "failing": fl, "fail_fast": failFast, "history": env.Log})
+	})
+}
+
+// FailingRerunPart (C05, load_outputs=minimal): a cached dependency whose blobs are lost has
+// to be re-run when its dependants execute; this time its command exits 0 without creating its
+// declared outputs, i.e. it fails. None of its 2-4 dependants may execute - neither the first
+// one that asks for it nor the later ones - the build must exit non-zero, and the next build
+// (cause removed) must build everything.
+func FailingRerunPart(run *report.Run, st *Setup, n int) {
+	Parallel(n, func(i int) {
+		r := rng.Derive(uint64(run.Seed), "C05-failing-rerun", fmt.Sprint(i))
+		nd := r.Range(2, 4)
+		s := &spec.Spec{Files: map[string]string{"p/d.txt": "d1\n", "p/u.txt": "u1\n"}}
+		dep := &spec.Target{Pkg: "p", Name: "dep", Salt: r.Word(4, 8), Inputs: []string{"d.txt"},
+			Outs: []spec.Out{{Kind: "file", Path: "dep.out"}}, OmitIf: "markers/omit_dep"}
+		if r.Chance(1, 2) {
+			dep.Outs = append(dep.Outs, spec.Out{Kind: "dir", Path: "dep.d"})
+			if r.Chance(1, 2) {
+				dep.Omit = "dep.d" // only one of the declared outputs goes missing
+			}
+		}
+		dep.Dangle = r.Chance(1, 3)
+		s.Targets = append(s.Targets, dep)
+		for k := 0; k < nd; k++ {
+			u := &spec.Target{Pkg: "p", Name: fmt.Sprintf("u%d", k), Salt: r.Word(4, 8), Inputs: []string{"u.txt"}, Deps: []string{"//p:dep"},
+				Outs: []spec.Out{{Kind: "file", Path: fmt.Sprintf("u%d.out", k)}}, SleepMs: r.Intn(40)}
+			s.Targets = append(s.Targets, u)
+		}
+		gcfg := grog.Config{NumWorkers: r.Range(1, 4), LoadOutputs: "minimal", FailFast: r.Chance(1, 4)}
+		env, err := NewEnv(st.Base, fmt.Sprintf("fr%d", i), st.Grog, st.Vctl, s, gcfg)
+		if err != nil {
+			run.Infra(err.Error())
+			return
+		}
+		keep := false
+		defer func() {
+			if !keep {
+				env.Cleanup()
+			}
+		}()
+		cfg := BuildCfg{EnableCache: true, Minimal: true, FailFast: gcfg.FailFast}
+		if _, obs, vs, err := env.Step(BuildOpts{}, cfg, "cold", false); err != nil || len(vs) > 0 || obs.Res.Exit != 0 {
+			run.Count("failing_rerun_cases_skipped_cold_build_diverged", 1)
+			return
+		}
+		// the dependants change, the dependency stays cached but loses its blobs and its outputs
+		env.Apply(func() string { s.Files["p/u.txt"] = "u2\n"; return "file-edit" })
+		if err := env.Sync(); err != nil {
+			run.Infra(err.Error())
+			return
+		}
+		env.WipeOutputs()
+		lost := 0
+		if ents, err := os.ReadDir(filepath.Join(env.CacheDir(), "cas")); err == nil {
+			for _, en := range ents {
+				if os.Remove(filepath.Join(env.CacheDir(), "cas", en.Name())) == nil {
+					lost++
+				}
+			}
+		}
+		env.SetMarker("markers/omit_dep", true)
+		env.Logf("dependants edited, workspace wiped, %d blobs lost (results kept), the dependency's command will now leave a declared output missing", lost)
+		obs := env.RunBuild(BuildOpts{})
+		run.Eval(1)
+		run.Count("failing_rerun_builds", 1)
+		run.Count("dependency_reruns_that_failed", obs.Started["//p:dep"])
+		if obs.Res.Crashed() != "" || obs.Res.TimedOut {
+			run.Count("divergence_other_property:crash-or-hang", 1)
+			return
+		}
+		var ran []string
+		for k := 0; k < nd; k++ {
+			if l := fmt.Sprintf("//p:u%d", k); obs.Started[l] > 0 {
+				ran = append(ran, l)
+			}
+		}
+		if obs.Started["//p:dep"] > 0 {
+			run.Nontrivial(fmt.Sprintf("failing-rerun|%d|w%d|ff=%v|%d", nd, gcfg.NumWorkers, gcfg.FailFast, len(dep.Outs)))
+		}
+		if len(ran) > 0 {
+			keep = !run.Violation("exec-after-dep-failure dependency-rerun-failed mode=minimal",
+				fmt.Sprintf("the re-run of //p:dep failed (declared output missing) but its dependants %v executed", ran), mkReplay(i, env, obs)) || keep
+			return
+		}
+		if obs.Started["//p:dep"] > 0 && obs.Res.Exit == 0 {
+			keep = !run.Violation("exit-zero-despite-failure dependency-rerun-failed mode=minimal", "the re-run of //p:dep failed but grog exited 0", mkReplay(i, env, obs)) || keep
+			return
+		}
+		// cause removed: everything is attempted again and built
+		env.SetMarker("markers/omit_dep", false)
+		obs2 := env.RunBuild(BuildOpts{})
+		run.Eval(1)
+		if obs2.Res.Exit != 0 {
+			keep = !run.Violation("followup-build-fails dependency-rerun-failed mode=minimal", "after the failure cause was removed the next build still fails: "+tail(obs2.Res.Stdout+obs2.Res.Stderr, 300), mkReplay(i, env, obs2)) || keep
+			return
+		}
+		for k := 0; k < nd; k++ {
+			if l := fmt.Sprintf("//p:u%d", k); obs2.Started[l] == 0 {
+				keep = !run.Violation("failed-dependant-not-attempted-again mode=minimal", fmt.Sprintf("%s was not built by the build in which its dependency failed, and the next build did not execute it either", l), mkReplay(i, env, obs2)) || keep
+				return
+			}
+		}
+		run.Sample(map[string]any{"failing_rerun_case": i, "dependants": nd, "history": env.Log})
 	})
 }
